@@ -15,6 +15,7 @@ from .. import runner, subrun, tlc, tracecheck
 from ..common import Check, scratch
 
 LEVEL = "model_checking"
+RULE = ('cases = Pool/ProgramSpace scenarios: worker counts x delay schedules x hash seeds x creation orders x sibling sets; non-trivial when the perturbation was actually observed (completion order differs from input order, or a different seed/order was in force); distinct = distinct (kind, parameters, observed schedule)')
 
 FILES = {
     "pkg/a.py": "import os\n\nx = set([1, 2])\nassert (1 == 1, 'm')\nprint(os.sep)\n",
